@@ -169,8 +169,9 @@ def build_grid_call(case):
         if td is not None and case.get("da_int") is not None:
             td = td.chunk({d: 1 for d in td.dims if d not in (nm("zc"), nm("zo"))})
     if case["target_kind"] == "arr":
-        target = xr.DataArray(lev, dims=[case["tname"]],
-                              coords=None if case.get("target_nocoord") else {case["tname"]: lev})
+        tco = None if case.get("target_nocoord") else \
+            {case["tname"]: np.arange(len(lev)) if case.get("target_labels") == "index" else lev}
+        target = xr.DataArray(lev, dims=[case["tname"]], coords=tco)
     else:
         target = lev
     kw = dict(method=case["method"], mask_edges=case["mask"], bypass_checks=case["bypass"])
